@@ -44,6 +44,10 @@ def _engine_targets(ded, results, tier):
             rec["externals"] = sorted(eng.used_externals)
             rec["callee_contracts"] = sorted(eng.called_contracts)
             rec["lemmas_used"] = sorted(getattr(eng, "used_lemmas", ()))
+            # mechanical assumption scan: lemmas used that are not proved by SMT (definitions / assumed facts about externals)
+            rec["unproved_lemmas"] = sorted(f"{n} ({eng.lemmas[n].get('kind')})" for n in rec["lemmas_used"]
+                                            if eng.lemmas.get(n, {}).get("kind") != "smt")
+            rec["sidecar"] = ded["sidecar"]
             if not obls:
                 rec["status"] = "not-established"
                 rec["reason"] = "zero obligations generated"
@@ -97,6 +101,23 @@ def _engine_targets(ded, results, tier):
         if rec["status"] is None:
             bad = [o for o in rec["obligations"] if o["result"] != "unsat"]
             rec["status"] = "proved" if not bad else "failed"
+    return out
+
+
+def _all_targets():
+    """(module, function) -> property ids whose DEDUCTIVE lists verify a contract on that function"""
+    import glob
+    out = {}
+    for path in sorted(glob.glob(os.path.join(ROOT, "props", "C*.py"))):
+        pid = os.path.basename(path)[:-3]
+        try:
+            m = importlib.import_module(f"props.{pid}")
+        except Exception:
+            continue
+        for ded in getattr(m, "DEDUCTIVE", []):
+            for t in ded.get("targets", []):
+                if not t.startswith("lemma:"):
+                    out.setdefault((ded["module"], t.split("@")[0]), set()).add(pid)
     return out
 
 
@@ -258,9 +279,26 @@ def run_property(pid, prop, tier, seed, known, t0):
         "known_findings_seen": known_lines,
         "exhaustive": False,
     }
+    # ------------------------------------------------------------------ mechanical assumption scan
+    scan = []
+    verified_here = {r["target"].split("@")[0] for r in ded_results if r.get("status") == "proved"}
+    all_targets = _all_targets()
+    for r in ded_results:
+        for q in r.get("callee_contracts") or []:
+            if q in verified_here:
+                continue
+            where = sorted(all_targets.get((r.get("module"), q), ()))
+            scan.append(f"callee contract {q} is used at call sites of {r['target']} and " +
+                        (f"verified as a target of {', '.join(where)}" if where else "is NOT a verified target of any check (assumed contract)"))
+        for x in r.get("externals") or []:
+            scan.append(f"external {x}: assumed contract declared in {r.get('sidecar')}.EXTERNALS (trusted)")
+        for l in r.get("unproved_lemmas") or []:
+            scan.append(f"lemma {l} is used by {r['target']} without SMT proof (listed in {r.get('sidecar')}.LEMMAS)")
+    scan = sorted(set(scan))
+    cov["assumption_scan"] = scan
     ev = {"property_id": pid, "tier": tier if tier in ("quick", "thorough") else "quick", "seed": seed,
           "level": getattr(prop, "LEVEL", "other"), "coverage": cov,
-          "assumptions": list(getattr(prop, "ASSUMPTIONS", [])) + [
+          "assumptions": list(getattr(prop, "ASSUMPTIONS", [])) + scan + [
               "extraction drops: logging.* statements incl. their arguments, docstrings, annotations, imports",
               "termination is proved only for loops with a decreases clause"],
           "wall_s": round(time.time() - t0, 2), "violations": len(lines)}
